@@ -116,3 +116,113 @@ Proof.
   split; [vm_compute; reflexivity|]. split; [vm_compute; reflexivity|].
   vm_compute. tauto.
 Qed.
+
+(** the hypotheses of the same-round, one-height statement hold at height 2 of the same two nodes
+    (both certificates of round 0, the two chains prescribe the same - changed - set) *)
+Example same_round_hypotheses_satisfiable :
+  In (2, snd (top_entry n1)) (st_hdrs n1) /\ In (2, snd (top_entry n2)) (st_hdrs n2) /\
+  vs_keys (chain_vals 1 evs (st_hdrs n1) 2) = vs_keys (chain_vals 1 evs (st_hdrs n2) 2) /\
+  vs_pows (chain_vals 1 evs (st_hdrs n1) 2) = vs_pows (chain_vals 1 evs (st_hdrs n2) 2) /\
+  cp_round (snd (snd (top_entry n1))) = cp_round (snd (snd (top_entry n2))) /\
+  byz_bound (chain_vals 1 evs (st_hdrs n1) 2) (exB 2) /\ A1m (chain_vals 1 evs (st_hdrs n1) 2) (exB 2) exV 2 /\
+  snd (snd (top_entry n1)) <> snd (snd (top_entry n2)).
+Proof.
+  split; [vm_compute; left; reflexivity|]. split; [vm_compute; left; reflexivity|].
+  split; [vm_compute; reflexivity|]. split; [vm_compute; reflexivity|]. split; [vm_compute; reflexivity|].
+  split; [apply byz_boundb_ok; vm_compute; reflexivity|].
+  split; [apply a1mb_ok; vm_compute; reflexivity|vm_compute; discriminate].
+Qed.
+
+(** ** 2. A1 is necessary (and so is the Byzantine bound) *)
+(** two headers for height 1; validators 10, 11, 12 (3 of 4) prevote and precommit BOTH in round 0 *)
+Definition hA : hdr := mk_hdr [1] true 1 [] empty_cproof evs evs.
+Definition hB : hdr := mk_hdr [2] true 1 [] empty_cproof evs evs.
+Definition opsA : list op :=
+  [ OpPH (propose hA 0 [5]); OpPrecommit (vmsg_of KPrecommit 1 0 [7] [1] [(0, 10); (1, 11); (2, 12)]) ].
+Definition opsB : list op :=
+  [ OpPH (propose hB 0 [6]); OpPrecommit (vmsg_of KPrecommit 1 0 [7] [2] [(0, 10); (1, 11); (2, 12)]) ].
+Definition mA : kstate := get (run_ops (init_state 1 evs) opsA).
+Definition mB : kstate := get (run_ops (init_state 1 evs) opsB).
+Definition badV : list sigd :=
+  cert_sigs mA ++ cert_sigs mB ++
+  map (fun key => SVote key KPrevote 1 0 [1]) [10; 11; 12] ++
+  map (fun key => SVote key KPrevote 1 0 [2]) [10; 11; 12].
+
+Lemma mA_mB_facts :
+  reachable_b 1 evs mA /\ reachable_b 1 evs mB /\ cert_sigs_in badV mA /\ cert_sigs_in badV mB /\
+  hash_binds_next mA mB /\
+  In (1, snd (top_entry mA)) (st_hdrs mA) /\ In (1, snd (top_entry mB)) (st_hdrs mB) /\
+  cp_round (snd (snd (top_entry mA))) = cp_round (snd (snd (top_entry mB))) /\
+  hd_hash (fst (snd (top_entry mA))) = [1] /\ hd_hash (fst (snd (top_entry mB))) = [2].
+Proof.
+  assert (E1 : run_ops (init_state 1 evs) opsA = Ok mA) by (vm_compute; reflexivity).
+  assert (E2 : run_ops (init_state 1 evs) opsB = Ok mB) by (vm_compute; reflexivity).
+  split; [eapply run_ops_reachable; [apply rb_init| |exact E1]; apply ops_bounded; vm_compute; reflexivity|].
+  split; [eapply run_ops_reachable; [apply rb_init| |exact E2]; apply ops_bounded; vm_compute; reflexivity|].
+  split; [apply cert_sigs_covers; intros sg H; unfold badV; apply in_or_app; left; exact H|].
+  split; [apply cert_sigs_covers; intros sg H; unfold badV; apply in_or_app; right; apply in_or_app; left; exact H|].
+  split; [apply hash_bindsb_ok; vm_compute; reflexivity|].
+  split; [vm_compute; left; reflexivity|]. split; [vm_compute; left; reflexivity|].
+  split; [vm_compute; reflexivity|]. split; vm_compute; reflexivity.
+Qed.
+
+(** Everything [mirrors_agree] (and its same-round form) assumes, except A1, holds - with NO
+    Byzantine key - and the two mirrors committed different headers at height 1 from certificates
+    of the same round: the mirror alone cannot give agreement, A1 is what the validators' signing
+    discipline (C02) has to contribute. *)
+Theorem mirrors_agree_needs_A1_refuted :
+  exists ih ivs s1 s2 V (B : N -> list N),
+    1 <= ih /\ vs_ok ivs = true /\ reachable_b ih ivs s1 /\ reachable_b ih ivs s2 /\
+    cert_sigs_in V s1 /\ cert_sigs_in V s2 /\ hash_binds_next s1 s2 /\
+    (forall h x1 cp1 x2 cp2, In (h, (x1, cp1)) (st_hdrs s1) -> In (h, (x2, cp2)) (st_hdrs s2) ->
+       byz_bound (chain_vals ih ivs (st_hdrs s1) h) (B h) /\
+       A2m (chain_vals ih ivs (st_hdrs s1) h) (B h) V h /\
+       A3m (chain_vals ih ivs (st_hdrs s1) h) (B h) V h) /\
+    exists h x1 cp1 x2 cp2,
+      In (h, (x1, cp1)) (st_hdrs s1) /\ In (h, (x2, cp2)) (st_hdrs s2) /\
+      cp_round cp1 = cp_round cp2 /\ hd_hash x1 <> hd_hash x2.
+Proof.
+  destruct mA_mB_facts as (R1 & R2 & C1 & C2 & Hb & I1 & I2 & Er & H1 & H2).
+  exists 1, evs, mA, mB, badV, (fun _ => []).
+  split; [discriminate|]. split; [reflexivity|]. split; [exact R1|]. split; [exact R2|].
+  split; [exact C1|]. split; [exact C2|]. split; [exact Hb|]. split.
+  - intros h x1 cp1 x2 cp2 J1 J2. apply (hyps_noA1b_ok 1 evs mA badV (fun _ => []) h).
+    apply (common_heightsb_ok (hyps_noA1b 1 evs mA badV (fun _ => [])) mA mB) with (e1 := (x1, cp1)) (e2 := (x2, cp2));
+      [vm_compute; reflexivity|exact J1|exact J2].
+  - exists 1, (fst (snd (top_entry mA))), (snd (snd (top_entry mA))),
+           (fst (snd (top_entry mB))), (snd (snd (top_entry mB))).
+    rewrite <- !surjective_pairing. split; [exact I1|]. split; [exact I2|]. split; [exact Er|].
+    rewrite H1, H2. discriminate.
+Qed.
+
+(** The same two mirrors with the three equivocators declared Byzantine: A1, A2, A3 hold, only the
+    bound "Byzantine power < ByzantineMinority" fails (3 of 4) - it is necessary as well. *)
+Theorem mirrors_agree_needs_byz_bound_refuted :
+  exists ih ivs s1 s2 V (B : N -> list N),
+    1 <= ih /\ vs_ok ivs = true /\ reachable_b ih ivs s1 /\ reachable_b ih ivs s2 /\
+    cert_sigs_in V s1 /\ cert_sigs_in V s2 /\ hash_binds_next s1 s2 /\
+    (forall h x1 cp1 x2 cp2, In (h, (x1, cp1)) (st_hdrs s1) -> In (h, (x2, cp2)) (st_hdrs s2) ->
+       A1m (chain_vals ih ivs (st_hdrs s1) h) (B h) V h /\
+       A2m (chain_vals ih ivs (st_hdrs s1) h) (B h) V h /\
+       A3m (chain_vals ih ivs (st_hdrs s1) h) (B h) V h) /\
+    exists h x1 cp1 x2 cp2,
+      In (h, (x1, cp1)) (st_hdrs s1) /\ In (h, (x2, cp2)) (st_hdrs s2) /\
+      cp_round cp1 = cp_round cp2 /\ hd_hash x1 <> hd_hash x2.
+Proof.
+  destruct mA_mB_facts as (R1 & R2 & C1 & C2 & Hb & I1 & I2 & Er & H1 & H2).
+  exists 1, evs, mA, mB, badV, (fun _ => [10; 11; 12]).
+  split; [discriminate|]. split; [reflexivity|]. split; [exact R1|]. split; [exact R2|].
+  split; [exact C1|]. split; [exact C2|]. split; [exact Hb|]. split.
+  - intros h x1 cp1 x2 cp2 J1 J2.
+    pose proof (common_heightsb_ok
+      (fun h => a1mb (chain_vals 1 evs (st_hdrs mA) h) [10; 11; 12] badV h &&
+                a2mb (chain_vals 1 evs (st_hdrs mA) h) [10; 11; 12] badV h &&
+                a3mb (chain_vals 1 evs (st_hdrs mA) h) [10; 11; 12] badV h) mA mB) as G.
+    specialize (G ltac:(vm_compute; reflexivity) h (x1, cp1) (x2, cp2) J1 J2). cbv beta in G.
+    rewrite !andb_true_iff in G. destruct G as ((A & B1) & C).
+    split; [apply a1mb_ok; exact A|]. split; [apply a2mb_ok; exact B1|apply a3mb_ok; exact C].
+  - exists 1, (fst (snd (top_entry mA))), (snd (snd (top_entry mA))),
+           (fst (snd (top_entry mB))), (snd (snd (top_entry mB))).
+    rewrite <- !surjective_pairing. split; [exact I1|]. split; [exact I2|]. split; [exact Er|].
+    rewrite H1, H2. discriminate.
+Qed.
